@@ -110,6 +110,19 @@ def runCase (s : DSt) : String :=
     match nm[j]? with
     | some b => (nm.take j).any (fun a => decide (b.e < a.s))
     | none => false)).length
+  -- arrival order of the pattern indices of the matches that share one name node (≥ 3 distinct patterns)
+  let nameKeys := (ms.filterMap (nameOf cfg)).eraseDups
+  let perms := nameKeys.filterMap (fun r =>
+    let seq := (ms.filter (fun m => nameOf cfg m == some r)).map (·.pat)
+    if seq.length ≥ 3 && seq.eraseDups.length == seq.length then
+      some (String.intercalate "" (seq.map (fun p => toString (p - cfg.tagsFrom))))
+    else none)
+  let ties := (nameKeys.filter (fun r =>
+    let seq := (ms.filter (fun m => nameOf cfg m == some r)).map (·.pat)
+    match seq.min? with
+    | some p => (seq.filter (· == p)).length ≥ 2
+    | none => false)).length
+  let permStr := if perms.isEmpty then "-" else String.intercalate "," perms
   let hullBad := (real.filter (fun t => !t.isIgnored && !judgeHull cfg ms t)).length
   let pls := (real.filter (!·.isIgnored)).filterMap (placementOf cfg ms)
   let plc := fun (k : Nat) => (pls.filter (· == k)).length
@@ -137,7 +150,7 @@ def runCase (s : DSt) : String :=
   let lz := match lossy with
     | [] => "-"
     | m :: _ => m.replace " " "_"
-  s!"{s.id} corr={corr.replace " " "_"} vars={vars} judge={j} tags={real.length} matches={ms.length} skipped={skipped} lossy={lossy.length} lossymsg={lz} multi={multi} nonascii={na} cfgbad={if cfg.invalid then 1 else 0} plin={plc 0} pleq={plc 1} plfront={plc 2} plbehind={plc 3} mrdocs={(ms.map (fun m => (m.caps.filter (fun c => some c.idx == cfg.docIdx && decide (c.sp.row < c.ep.row))).length)).foldl (· + ·) 0} withdocs={(real.filter (fun t => t.docs.isSome)).length} capi={(capiCheck s).replace " " "_"} names={nm.length} arrbad={arrbad} late={if noLate {} cfg s.src none ms (initSt s.src) then 0 else 1}"
+  s!"{s.id} corr={corr.replace " " "_"} vars={vars} judge={j} tags={real.length} matches={ms.length} skipped={skipped} lossy={lossy.length} lossymsg={lz} multi={multi} nonascii={na} cfgbad={if cfg.invalid then 1 else 0} ties={ties} perms={permStr} plin={plc 0} pleq={plc 1} plfront={plc 2} plbehind={plc 3} mrdocs={(ms.map (fun m => (m.caps.filter (fun c => some c.idx == cfg.docIdx && decide (c.sp.row < c.ep.row))).length)).foldl (· + ·) 0} withdocs={(real.filter (fun t => t.docs.isSome)).length} capi={(capiCheck s).replace " " "_"} names={nm.length} arrbad={arrbad} late={if noLate {} cfg s.src none ms (initSt s.src) then 0 else 1}"
 
 def step (s : DSt) (line : String) : IO DSt := do
   match line.splitOn " " with
